@@ -37,7 +37,20 @@ def frozen(d):
     return ["map", type(d).__name__, [[k, opseq.canon(v)] for k, v in d.items()]]
 
 
-def make_ops(fam):
+def respelled(fam, vec):
+    """An equal object spelled differently: fields reversed, explicit Not Defined fields dropped,
+    and every absent optional metric written as explicit Not Defined."""
+    verdict, got = T.parse(fam, vec)
+    nd = T.ND[fam]
+    asg = dict((m, v) for m, v in got.items() if v != nd)
+    for m in T.OPTIONAL[fam]:
+        if m not in got:
+            asg[m] = nd
+    order = [m for m in T.METRICS[fam] if m in asg][::-1]
+    return T.spell(fam, asg, order)
+
+
+def make_ops(fam, vec=None):
     ops = [
         ("scores", lambda o, f: o.scores()),
         ("severities", lambda o, f: o.severities()),
@@ -46,6 +59,10 @@ def make_ops(fam):
         ("eq_twin", lambda o, f: (o == f, f == o, o != f)),
         ("hash", lambda o, f: hash(o) == hash(f)),
     ]
+    if vec is not None:
+        other = respelled(fam, vec)
+        ops.append(("eq_respelled", lambda o, f: (o == type(o)(other), type(o)(other) == o, o != type(o)(other))))
+        ops.append(("in_set_of_respelled", lambda o, f: o in set([type(o)(other)])))
     if fam != "2":
         ops.append(("clean_vector_noprefix", lambda o, f: o.clean_vector(output_prefix=False)))
     if fam != "4.0":
@@ -86,6 +103,33 @@ def seeds(n):
             out.append((fam, s))
         for s in special[fam]:
             out.append((fam, s))
+        out += [(fam, s) for s in shape_seeds(fam)]
+    return out
+
+
+def shape_seeds(fam):
+    """One vector per *shape*: each optional group absent / fully defined / fully explicit Not
+    Defined, in every combination (the accessors branch on which groups are present)."""
+    tab = T.METRICS[fam]
+    nd = T.ND[fam]
+    base = dict((m, tab[m][1 % len(tab[m])]) for m in T.MANDATORY[fam])
+    if fam == "2":
+        groups = [T.V2_TEMPORAL, ["CDP", "TD"], ["CR", "IR", "AR"]]
+    elif fam == "4.0":
+        groups = [T.V4_THREAT, ["CR", "IR", "AR"], T.V4_MODIFIED, T.V4_SUPPLEMENTAL]
+    else:
+        groups = [T.V3_TEMPORAL, ["CR", "IR", "AR"], T.V3_MODIFIED]
+    out = []
+    import itertools
+    for states in itertools.product(("absent", "defined", "nd"), repeat=len(groups)):
+        asg = dict(base)
+        for g, st in zip(groups, states):
+            for m in g:
+                if st == "defined":
+                    asg[m] = [v for v in tab[m] if v != nd][-1]
+                elif st == "nd":
+                    asg[m] = nd
+        out.append(T.spell(fam, asg))
     return out
 
 
@@ -99,7 +143,7 @@ def bfs_seed(fam, vec, fresh, max_states=40):
     fresh-object result. A *benign* internal cache only adds states (reported, not alarmed).
     Returns (states, transitions, capped, violation-or-None)."""
     cls = observe.cls_of(fam)
-    ops = make_ops(fam)
+    ops = make_ops(fam, vec)
     init = full_state(cls(vec))
     seen = {init: ()}
     frontier = [()]
@@ -131,7 +175,7 @@ def bfs_seed(fam, vec, fresh, max_states=40):
 def run_sequence(fam, vec, seq, fresh):
     """(ii) Apply seq to one object; compare every result with the fresh-object result."""
     cls = observe.cls_of(fam)
-    ops = make_ops(fam)
+    ops = make_ops(fam, vec)
     o, twin = cls(vec), cls(vec)
     for pos, i in enumerate(seq):
         name, fn = ops[i]
@@ -148,7 +192,7 @@ def run_sequence(fam, vec, seq, fresh):
 def fresh_results(fam, vec):
     cls = observe.cls_of(fam)
     out = []
-    for name, fn in make_ops(fam):
+    for name, fn in make_ops(fam, vec):
         out.append(opseq.canon(fn(cls(vec), cls(vec))))
     return out
 
@@ -167,7 +211,7 @@ def _task(t):
     acc["extra"]["bfs"] = (nstates, ntrans, capped)
     acc["calls"] += ntrans
     if v:
-        names = [make_ops(fam)[i][0] for i in v[0][:-1]]
+        names = [make_ops(fam, vec)[i][0] for i in v[0][:-1]]
         sweep.bad(acc, {"what": "%s(%r): %s after %s" % (T.CLASSNAME[fam], vec, v[1], names),
                         "kind": "state", "family": fam, "input": vec, "seq": list(v[0]),
                         "signature": {"kind": "state"}})
@@ -186,7 +230,7 @@ def _task(t):
                 acc["nontrivial"] += 1
     if not acc["samples"]:
         acc["samples"].append({"vector": vec, "snapshot_bfs": {"states": nstates, "transitions": ntrans},
-                               "ops": [n for n, _ in make_ops(fam)]})
+                               "ops": [n for n, _ in make_ops(fam, vec)]})
     return acc
 
 
